@@ -1,27 +1,78 @@
 from vp.api import Q, Mutant
-TITLE = "Accelerator tasks see the newest data (reduced: eviction safety + stage-in source choice)"
+TITLE = "Accelerator tasks see the newest data (reduced: stage-in source/version choice; eviction safety of reserve_space)"
 U = "parsec/mca/device/device_gpu.c"
 D = "parsec/data.c"
 H = "parsec/data_internal.h"
-OUTSIDE = []
-ASSUMPTIONS = []
-BOUNDS = {"quick": {}, "thorough": {}}
+OUTSIDE = [
+    "everything behind the vendor runtime: streams, events, real transfers, completion callbacks (parsec_device_callback_complete_push), kernel_pop write-back, W2R tasks",
+    "histories: each query is ONE call of one function from a symbolic state; that the assumed state invariants are preserved by the rest of the device layer "
+    "(kernel_push/pop/epilog, the LRU discipline 'dirty copies live in gpu_mem_owned_lru') is NOT shown",
+    "concurrency between the device manager thread and other threads (readers CAS, data locks): sequential execution only",
+    "more than one data per stage-in call, more than 3 devices, more than 2 flows / 3 LRU members in reserve_space",
+    "transfer_gpu.c (the D2H W2R task class) is not encoded",
+    "inputs on another accelerator WITHOUT peer access (assumption A1): in that case stage_in falls back to the host copy without checking its "
+    "validity/version (solver counterexample with -DNO_A1; whether the runtime can produce that call is not established)",
+]
+ASSUMPTIONS = [
+    "stage_in pre-state: representation invariant of one parsec_data_t (C26's INV: one OWNED copy = owner_device holding the newest version, stale copies SHARED and "
+    "only next to an OWNED copy, EXCLUSIVE is the only valid copy, at least one valid copy) extended with 'UNDER_TRANSFER => INVALID'",
+    "stage_in caller contract: data_in holds the newest valid version; it may still be in flight only where the code handles it (the destination itself, or a "
+    "read-only flow's input on another accelerator); data_out is the attached copy on this device",
+    "A1: an input residing on another accelerator implies peer access from this device to it",
+    "A2: a copy under repurposing by its owner device (readers < 0) is never the only valid holder of the newest version (it came from the clean LRU)",
+    "device function pointers / DSL stage_in callback: recording stub with nondeterministic result; zone allocator: nondeterministic stub",
+    "object system: harness copy of parsec_class_initialize over static tables (vp_objstub.h); data_internal.h overlay device_copies[VP_NDEV]",
+]
+BOUNDS = {"quick": {"devices": 3, "versions": "0..3", "calls": 1},
+          "thorough": {"devices": 3, "versions": "0..6", "calls": 1}}
 PATCH = [(H, r"device_copies\[\];", "device_copies[VP_NDEV];")]
 UNITS = [U, D, H, "parsec/class/list.h", "parsec/class/list_item.h", "parsec/class/parsec_list.c", "parsec/class/parsec_object.h"]
+SI_INFO = {
+    "symbolic": ["per copy (host, destination, other accelerator): coherency, version, readers (incl. repurposing sentinel), transfer status",
+                 "owner_device", "data_in in {host copy, other accelerator's copy, destination}", "access mode", "kernel/prefetch", "peer access",
+                 "dc / source_repo_entry presence", "LRU membership of destination and other copy", "result of the DSL stage_in callback"],
+    "stubs": ["parsec_mca_device_get (3 static modules)", "gpu_task->stage_in (recording, nondeterministic rc)", "logging (counting)",
+              "zone_malloc/zone_free/parsec_arena_release: unreachable, assert if reached", "parsec_class_initialize (static tables)"],
+    "assumptions": ["INV on the pre-state", "caller contract for data_in", "A1 peer access", "A2 repurposed copy is not the sole newest"],
+    "functions": ["parsec_device_data_stage_in", "parsec_gpu_data_copy_acquire_reader", "parsec_gpu_data_copy_release_reader",
+                  "parsec_data_start_transfer_ownership_to_copy", "parsec_data_end_transfer_ownership_to_copy"],
+}
+UW = {"parsec_atomic_lock": 2}
 
 
 def queries(ctx):
     qs = []
-    info = {}
-    qs.append(Q("evict", ["evict.c"], defs=["VP_NDEV=3"], unwind=4,
-                unwind_fn={"parsec_device_data_reserve_space": 7, "parsec_atomic_lock": 2, "walk_lru": 9, "in_lru": 9, "main": 9,
-                           "zone_malloc": 7},
-                units=UNITS, patches=PATCH, object_bits=12, timeout=900, info=info))
+    for name, acc in (("stagein_read", "ACC_RO"), ("stagein_write", "ACC_W")):
+        qs.append(Q(name, ["stagein.c"], defs=["VP_NDEV=3", "VMAX=3", acc], unwind=5, unwind_fn=UW,
+                    units=UNITS, patches=PATCH, object_bits=12, timeout=900,
+                    info=dict(SI_INFO, bounds={"devices": 3, "version": "0..3", "access": "READ" if acc == "ACC_RO" else "WRITE, RW"})))
+    if ctx.thorough:
+        qs.append(Q("stagein_all_v6", ["stagein.c"], defs=["VP_NDEV=3", "VMAX=6"], unwind=5, unwind_fn=UW, tiers=("thorough",),
+                    units=UNITS, patches=PATCH, object_bits=12, timeout=1800,
+                    info=dict(SI_INFO, bounds={"devices": 3, "version": "0..6", "access": "READ, WRITE, RW"})))
     return qs
 
 
 def mutants(ctx):
-    return []
+    R, W, B = ["stagein_read"], ["stagein_write"], ["stagein_read", "stagein_write"]
+    return [
+        Mutant("fastpath_ignores_invalid_source", U,
+               "                if( (PARSEC_DATA_COHERENCY_INVALID != candidate->coherency_state) &&\n                    (PARSEC_DATA_STATUS_UNDER_TRANSFER != candidate->data_transfer_status) ) {",
+               "                if( 1 ) {", queries=R),
+        Mutant("scan_accepts_invalid_candidate", U, "            if(PARSEC_DATA_COHERENCY_INVALID == candidate->coherency_state) {", "            if( 0 ) {", queries=R),
+        Mutant("reader_version_off_by_one", U, "    else\n        gpu_elem->version = candidate->version;", "    else\n        gpu_elem->version = candidate->version + 1;", queries=R),
+        Mutant("source_reader_leak_when_no_transfer", U,
+               "        if( source_acquired ) {\n            int readers = parsec_gpu_data_copy_release_reader(candidate_dev, candidate, 1);\n            assert(readers >= 0);\n        }\n        gpu_elem->data_transfer_status = PARSEC_DATA_STATUS_COMPLETE_TRANSFER;",
+               "        gpu_elem->data_transfer_status = PARSEC_DATA_STATUS_COMPLETE_TRANSFER;", queries=B),
+        Mutant("acquire_ignores_repurposing_sentinel", U, "    if( readers >= 0 ) {\n        parsec_atomic_rmb();", "    if( 1 ) {\n        parsec_atomic_rmb();", queries=B),
+        Mutant("writer_version_not_bumped", U,
+               "    if( (PARSEC_FLOW_ACCESS_WRITE & type) && (gpu_task->task_type != PARSEC_GPU_TASK_TYPE_PREFETCH) )\n        gpu_elem->version = candidate->version + 1;",
+               "    if( 0 )\n        gpu_elem->version = candidate->version + 1;", queries=W),
+        Mutant("datac_shared_version_ge", D, "&& data->device_copies[i]->version > copy->version ) {", "&& data->device_copies[i]->version >= copy->version ) {", queries=B),
+        Mutant("writer_stays_in_clean_lru", U,
+               "        /* make sure the element is not in any tracking lists */\n        parsec_list_item_ring_chop((parsec_list_item_t*)gpu_elem);\n        PARSEC_LIST_ITEM_SINGLETON(gpu_elem);",
+               "        /* make sure the element is not in any tracking lists */", queries=W),
+    ]
 
 
 CLAIMED = False
